@@ -10,6 +10,7 @@ import (
 	"github.com/internetarchive/Zeno/internal/pkg/controler/pause"
 	"github.com/internetarchive/Zeno/internal/pkg/log"
 	"github.com/internetarchive/Zeno/internal/pkg/stats"
+	"github.com/internetarchive/Zeno/internal/pkg/verifhook"
 	"github.com/internetarchive/Zeno/pkg/models"
 )
 
@@ -124,6 +125,8 @@ func (p *postprocessor) worker(workerID string) {
 				}
 
 				closeBodies(seed)
+
+				verifhook.At("postprocessor.forward", seed.GetID())
 
 				select {
 				case <-p.ctx.Done():
